@@ -20,6 +20,7 @@ def run(prog: Program, rep: Report):
     r3_ready(prog, rep, pf, wrun)
     r4_quota(prog, rep, pf, wrun)
     r5_exit(prog, rep, pf)
+    r6_replaced_joined(prog, rep, pf)
 
 
 def _self_calls(f: Func, name: str) -> List[ast.Call]:
@@ -297,3 +298,27 @@ def r5_exit(prog, rep: Report, pf: PoolFacts):
               "the manager is shut down after the join loop",
               "the manager (which owns the queues) is shut down before the workers were joined",
               scenario="workers blocked on a queue of a dead manager raise/hang instead of receiving their sentinel")
+
+
+def r6_replaced_joined(prog, rep: Report, pf: PoolFacts):
+    from .c03 import _Replace
+    rep.rule("C04.R6", "replaced workers are not left running: the replace thread joins the retired worker before it drops it "
+             "from self.procs (the pool's __exit__ only joins what is in self.procs)", floor=1)
+    th = pf.replacer
+    run_ = prog.method(th, "run")
+    rep.fn(run_)
+    vars_ = set()
+    for n in walk_own(run_.node):
+        if isinstance(n, ast.Assign) and isinstance(n.value, ast.Call) and queue_call(n.value) and queue_call(n.value)[0] == "get" \
+                and isinstance(n.targets[0], ast.Name):
+            vars_.add(n.targets[0].id)
+    client = _Replace(pf, run_, vars_)
+    it = Interp(prog, client)
+    it.run(run_, {None}, th)
+    joins = [m for _, m in sorted(set(client.problems)) if "join" in m or "'received'" in m]
+    has_join = any(isinstance(c.func, ast.Attribute) and c.func.attr == "join" for c in calls_in(run_.node))
+    rep.check("C04.R6", run_, "retired-joined", has_join and not joins,
+              "the retired worker is joined before its slot in self.procs is overwritten",
+              "the retired worker is dropped from self.procs without being joined: " + ("; ".join(joins) or "no join() in the replace loop"),
+              scenario="quota 1 and a worker whose end() takes 3 s: after the with block that worker is still running (nobody "
+                       "joined it: __exit__ only knows its successor)")
